@@ -34,13 +34,24 @@ TIERS = {"quick": {"shards": 16, "budget": 200}, "thorough": {"shards": 16, "bud
 
 
 class PatternChooser(Chooser):
+    """Derived schedules: 'fifo', 'lifo', or 'rand:<k>:<seed>' (a PRNG seeded from the case, so the schedule is a pure
+    function of the case and replays exactly)."""
+
     def __init__(self, kind):
         super().__init__(script=[])
         self.kind = kind
+        self.rng = None
+        if kind.startswith("rand:"):
+            import random
+            self.rng = random.Random(int(kind.split(":")[2]))
 
     def choose(self, n, label=""):
         if n <= 1:
             return 0
+        if self.rng is not None:
+            v = self.rng.randrange(n)
+            self.log.append(v)
+            return v
         if self.kind == "lifo":
             v = n - 2 if label == "item" and n >= 2 else n - 1      # newest callback first, never the timeout option
             v = max(v, 0)
@@ -149,7 +160,13 @@ def run(case, ctx: Ctx, chooser: Chooser):
     full = {"W": W, "script": script, "choices": None}
     orders = []
     kinds = []
-    scheds = [("drawn", chooser)] + [(k, PatternChooser(k)) for k in case.get("variants", ["fifo", "lifo"])]
+    variants = case.get("variants")
+    if variants is None:
+        variants = ["fifo", "lifo"]
+        if ctx.tier == "thorough" and not ctx.replaying:
+            from ..core import jhash
+            variants += ["rand:%d:%d" % (k, jhash([W, script, k]) % (2 ** 31)) for k in range(3)]
+    scheds = [("drawn", chooser)] + [(k, PatternChooser(k)) for k in variants]
     finals = {}
     for name, ch in scheds:
         res, mon = wfcase.run_case(case, ctx, ch)
